@@ -9,6 +9,9 @@ SC = [('vf_tree_build', 'push_back builds v -> [c1 -> [g], c2]: links, root, con
       ('vf_tree_copy_ctor', 'copy construction is deep and independent'), ('vf_tree_copy_child', 'copy of a child node is a root'), ('vf_tree_move_ctor', 'move construction'),
       ('vf_tree_move_ctor_child', 'move construction from a child node: the new tree is a root'), ('vf_tree_copy_assign_child', 'copy assignment TO a child node keeps it linked to its parent'),
       ('vf_tree_move_assign_child', 'move assignment TO a child node keeps it linked to its parent; the source stays a root'), ('vf_tree_assign_root', 'copy / move assignment between roots'),
+      ('vf_tree_move_assign_from_child', 'move assignment FROM a child of the target (t = move(t.front())): the old children die, the links of the new ones are consistent'),
+      ('vf_tree_copy_assign_from_child', 'copy assignment from a child of the target'),
+      ('vf_tree_copy_assign_grow', 'copy assignment from a tree with more children than the target: every new child is linked to the target'),
       ('vf_tree_child_position', 'child_position identifies nodes by identity (equal siblings, foreign node)')]
 
 
@@ -21,7 +24,7 @@ def make(tier):
     # lemma harnesses (no --dfcc write-set instrumentation: measured 10x cheaper on this pointer-heavy code)
     ARGS = {'vf_tree_build': 4, 'vf_tree_push_tree': 4, 'vf_tree_insert_middle': 4, 'vf_tree_pop': 4, 'vf_tree_pop_empty': 1, 'vf_tree_release': 3, 'vf_tree_erase_clear': 4, 'vf_tree_sort': 3,
             'vf_tree_swap': 4, 'vf_tree_swap_child': 5, 'vf_tree_copy_ctor': 4, 'vf_tree_copy_child': 3, 'vf_tree_move_ctor': 3, 'vf_tree_move_ctor_child': 3, 'vf_tree_copy_assign_child': 4,
-            'vf_tree_move_assign_child': 4, 'vf_tree_assign_root': 5, 'vf_tree_child_position': 2}
+            'vf_tree_move_assign_child': 4, 'vf_tree_assign_root': 5, 'vf_tree_move_assign_from_child': 3, 'vf_tree_copy_assign_from_child': 3, 'vf_tree_copy_assign_grow': 3, 'vf_tree_child_position': 2}
     BOOL_LAST = ('vf_tree_push_tree', 'vf_tree_pop', 'vf_tree_erase_clear', 'vf_tree_assign_root')
     NAMES = ['every child\'s parent() is the node that lists it (links_ok)', 'root has no parent / second tree intact', 'contents as the reference model', 'further reference agreement', 'level / depth agree with the reference']
     h = ''
